@@ -111,8 +111,10 @@ def run(R):
             if not acc_:
                 okr = False
             rem_rej, rem_acc = set(rej_), set(acc_)
-            # on_stop must lie behind a rejecting edge of "status is Removed" (i.e. status known not to be Removed) …
-            if okr and (set(stops) & g.reach(tuple(gpp), cut=rem_rej, avoid=nxt)):
+            # on_stop must lie behind a rejecting edge of "status is Removed" (i.e. status known not to be Removed) — decided after the
+            # lookup or ahead of it, so the paths are taken from the head of the per-service iteration …
+            heads = tuple(d for n_b in nxt for d, _ in g.succ[n_b] if set(gpp) & g.reach((d,), avoid=nxt))    # the `next` of the per-service loop, not of the loops inside logging macros
+            if okr and (set(stops) & g.reach(heads, cut=rem_rej, avoid=nxt)):
                 okr = False
             # … and never after its accepting edge
             if okr and any(set(stops) & g.reach((d,), cut=rem_rej, avoid=nxt) for _, d in rem_acc):
@@ -120,6 +122,23 @@ def run(R):
         if not okr:
             R.viol("C19.refresh.removed", "removed-resurrected", "refresh_node_registry can mark a service Stopped (on_stop) without having established that it is not Removed: a removed service does not stay removed", ref, ref.lines[0])
         R.inst("C19.refresh.removed", "K4 gate", "refresh: on_stop after a failed process lookup only for a service that is not Removed", len(stops), okr)
+        # whatever status is recorded, the process is looked up: a service recorded Added (a start that failed after the launch) or Stopped
+        # whose process lives is only ever noticed here — a `continue` on the recorded status in front of the lookup leaves it unnoticed,
+        # and remove / stop then act on a live process
+        if gpp and "Removed" in sn:
+            from rules import VariantGuard as _VG
+            heads = tuple(d for n_b in nxt for d, _ in g.succ[n_b] if set(gpp) & g.reach((d,), avoid=nxt))    # the `next` of the per-service loop, not of the loops inside logging macros
+            skipped = []
+            for vname, vidx in sorted(sn.items(), key=lambda kv: kv[1]):
+                if vname == "Removed":
+                    continue        # a removed service has no process to look for
+                _n, _a, rej_v = _VG(call_results(["*::status"]), vname, vidx, "status is %s" % vname).edges(ref)
+                if not (set(gpp) & g.reach(heads, cut=set(rej_v), avoid=nxt)):
+                    skipped.append(vname)
+            if skipped:
+                R.viol("C19.refresh.lookup", "lookup-skipped:%s" % ",".join(skipped), "refresh_node_registry does not look up the process of a service recorded as %s: a live process behind it "
+                       "is never noticed (the registry keeps saying %s while remove / stop act on it)" % (" / ".join(skipped), skipped[0]), ref, ref.lines[0])
+            R.inst("C19.refresh.lookup", "K4 gate (must-reach)", "the process lookup is reached whatever status is recorded (Added, Running, Stopped)", len(gpp), not skipped)
     ost = R.body("C19.on_start", NS + "on_start::{closure#0}")
     if ost is not None:
         prep(ost)
